@@ -1,14 +1,16 @@
 (** C13 — the general composition with hypotheses on the ITEM LIST ONLY: a decidable class of item
     lists ([static_ok2]: every numeric item either fills the reader's width or is followed by
     something that cannot start with a digit, white-space items are not followed by white space,
-    fraction items are followed by neither a digit nor -- for %.f -- a dot, literals are ASCII) whose
+    fraction items are followed by neither a digit nor -- for %.f -- a dot, literals are any
+    well-formed UTF-8 -- a literal that starts with a Unicode white-space character counts as white
+    space for the item in front of it) whose
     documented renderings the reader takes back for EVERY value; with a sufficient field
     combination, again read off the items, parsing the formatted text of every value returns the
     value truncated to the printed fields. *)
 From Coq Require Import ZArith List Bool Lia ZifyBool.
 From V Require Import Base.Int Base.IntLemmas Base.IO Base.Utf8 Model.Scan Model.Items Gen.ParseTable Gen.Strftime
   Proofs.Utf8 Proofs.Scan Model.Parse Proofs.C13 Proofs.C13Reads Proofs.C13Fmt Proofs.C13Digits Proofs.C13Time
-  Proofs.C13Date Proofs.C13View Proofs.C13DateTime Proofs.C13DateForms Proofs.C13TimeForms Proofs.C13Zoned Proofs.C13General Spec.StrftimeDoc Spec.Gregorian.
+  Proofs.C13Date Proofs.C13View Proofs.C13Utf8Lit Proofs.C13DateTime Proofs.C13DateForms Proofs.C13TimeForms Proofs.C13Zoned Proofs.C13General Spec.StrftimeDoc Spec.Gregorian.
 From V Require Model.Parsed Model.Format Model.Date Model.Time Model.DateTime Model.Strftime Proofs.C12 Proofs.C12View
   Proofs.C14 Proofs.C14Date Proofs.C14Iso Proofs.C08Sweeps Proofs.C08 Proofs.C08Days Proofs.DateIso.
 Import ListNotations.
@@ -33,31 +35,45 @@ Proof.
   - eexists _, D. split; [reflexivity|]. split; [exact Hd|]. split; [exact Hl|]. intros Hc. contradiction.
 Qed.
 
-(* the first byte of a text: ASCII, and a digit / white space / dot only when the flags allow it *)
-Definition head_ok (e d w dot : bool) (t : bytes) : Prop :=
+(* the first byte of an ASCII text (every item except a literal renders ASCII): a digit / white space /
+   dot only when the flags allow it *)
+Definition head_ok_ascii (e d w dot : bool) (t : bytes) : Prop :=
   match t with
   | [] => e = true
   | c :: _ => 0 <= c <= 127 /\ (is_ascii_digit c = true -> d = true) /\ (is_whitespace c = true -> w = true) /\
               (c = 46 -> dot = true)
   end.
 
+(* the start of any text: the first byte is a digit / a dot, the first CODE POINT white space, only when
+   the flags allow it *)
+Definition head_ok (e d w dot : bool) (t : bytes) : Prop :=
+  match t with
+  | [] => e = true
+  | c :: _ => (is_ascii_digit c = true -> d = true) /\ (starts_ws t = true -> w = true) /\ (c = 46 -> dot = true)
+  end.
+Lemma head_ok_of_ascii e d w dot t : head_ok_ascii e d w dot t -> head_ok e d w dot t.
+Proof.
+  destruct t as [|c r]; [intros H; exact H|]. intros (Hc & Hd & Hw & Hdt). cbn [head_ok].
+  split; [exact Hd|]. split; [|exact Hdt]. rewrite starts_ws_byte by exact Hc. exact Hw.
+Qed.
+
 Lemma rep_head c k : 0 < k -> exists r, rep c k = c :: r.
 Proof. intros H. replace k with (Z.succ (k - 1)) by lia. rewrite rep_succ by lia. eexists. reflexivity. Qed.
 
-Lemma pad_num_head p w force x : head_ok false true (match p with DSpace => true | _ => false end) false (pad_num p w force x).
+Lemma pad_num_head p w force x : head_ok_ascii false true (match p with DSpace => true | _ => false end) false (pad_num p w force x).
 Proof.
   destruct (pad_num_shape p w force x) as (sp & ZD & -> & HZ & HlZ & Hsp).
-  assert (Hbody : forall r, head_ok false true (match p with DSpace => true | _ => false end) false
+  assert (Hbody : forall r, head_ok_ascii false true (match p with DSpace => true | _ => false end) false
                      ((if x <? 0 then [45] else if force then [43] else []) ++ ZD ++ r)).
   { intros r. destruct (x <? 0); [|destruct force].
     - cbn. repeat split; try lia; intros Hc; try discriminate Hc; reflexivity.
     - cbn. repeat split; try lia; intros Hc; try discriminate Hc; reflexivity.
     - cbn [app]. destruct ZD as [|c zr]; [rewrite blen_nil in HlZ; lia|]. cbn [app forallb] in *.
-      apply andb_prop in HZ. destruct HZ as [Hc _]. pose proof (digit_range c Hc). unfold head_ok.
+      apply andb_prop in HZ. destruct HZ as [Hc _]. pose proof (digit_range c Hc). unfold head_ok_ascii.
       split; [lia|]. split; [reflexivity|]. split; [unfold is_whitespace; lia|lia]. }
   destruct (Z_le_gt_dec sp 0) as [H0|H0].
   - rewrite rep_nonpos by lia. cbn [app]. specialize (Hbody []). rewrite app_nil_r in Hbody. exact Hbody.
-  - destruct (rep_head 32 sp ltac:(lia)) as (r & ->). cbn [app]. unfold head_ok.
+  - destruct (rep_head 32 sp ltac:(lia)) as (r & ->). cbn [app]. unfold head_ok_ascii.
     assert (p = DSpace) by (destruct p; try reflexivity; specialize (Hsp ltac:(discriminate)); lia). subst p.
     split; [lia|]. split; [reflexivity|]. split; [reflexivity|]. intros Hc. discriminate Hc.
 Qed.
@@ -198,7 +214,7 @@ Proof.
 Qed.
 
 Lemma fix_facts sv f t : sv_bounds sv -> tfield_supported f = true -> render_fix sv f = ROk t ->
-  ascii_b t /\ head_ok (fix_empty f) (fix_digit f) false (fix_dot f) t.
+  ascii_b t /\ head_ok_ascii (fix_empty f) (fix_digit f) false (fix_dot f) t.
 Proof.
   intros [Bd Bt Bn Bo] Hsup Hr. unfold render_fix in Hr.
   destruct f; try discriminate Hsup.
@@ -230,7 +246,7 @@ Proof.
       (split; [repeat constructor; discriminate|repeat split; try discriminate; intros Hc; discriminate Hc]).
   - (* FracAuto *)
     destruct (sv_sod sv) as [s|] eqn:Es; [|discriminate Hr]. apply ROk_inj in Hr. subst t. set (n := sv_nano sv) in *.
-    assert (Hdot : forall k, ascii_b (46 :: frac_digits n k) /\ head_ok true false false true (46 :: frac_digits n k)).
+    assert (Hdot : forall k, ascii_b (46 :: frac_digits n k) /\ head_ok_ascii true false false true (46 :: frac_digits n k)).
     { intros k. split.
       - constructor; [lia|]. rewrite frac_digits_pad. apply pad_num_ascii.
       - cbn. repeat split; try lia; intros Hc; try discriminate Hc; reflexivity. }
@@ -250,12 +266,12 @@ Proof.
     destruct (sv_off sv) as [o|] eqn:Eo; [|discriminate Hr]. apply ROk_inj in Hr. subst t.
     rewrite Proofs.C12.offset_text_unfold. cbv zeta. cbn [Z.eqb app]. unfold Proofs.C12.off_sign. split.
     + constructor; [destruct (o <? 0); lia|]. apply ascii_app; apply pad_num_ascii.
-    + cbn [head_ok]. destruct (o <? 0); (split; [lia|]); repeat split; intros Hc; try discriminate Hc.
+    + cbn [head_ok_ascii]. destruct (o <? 0); (split; [lia|]); repeat split; intros Hc; try discriminate Hc.
   - (* OffColon *)
     destruct (sv_off sv) as [o|] eqn:Eo; [|discriminate Hr]. apply ROk_inj in Hr. subst t.
     rewrite Proofs.C12.offset_text_unfold. cbv zeta. cbn [Z.eqb app]. unfold Proofs.C12.off_sign. split.
     + constructor; [destruct (o <? 0); lia|]. apply ascii_app; [apply pad_num_ascii|]. constructor; [lia|apply pad_num_ascii].
-    + cbn [head_ok]. destruct (o <? 0); (split; [lia|]); repeat split; intros Hc; try discriminate Hc.
+    + cbn [head_ok_ascii]. destruct (o <? 0); (split; [lia|]); repeat split; intros Hc; try discriminate Hc.
 Qed.
 
 Lemma fix_accept sv f t rest : sv_bounds sv -> (forall o, sv_off sv = Some o -> o mod 60 = 0) ->
@@ -338,7 +354,7 @@ Definition it_digit (it : Item) : bool :=
   end.
 Definition it_ws (it : Item) : bool :=
   match it with
-  | Literal (c :: _) => is_whitespace c
+  | Literal l => starts_ws l          (* the first code point; = is_whitespace c for an ASCII first byte c *)
   | Space (_ :: _) => true
   | INumeric _ PadSpace => true
   | _ => false
@@ -362,7 +378,7 @@ Definition next_padspace (r : list Item) : bool := match r with INumeric _ PadSp
 Definition next_not_space (r : list Item) : bool := match r with Space _ :: _ => false | _ => true end.
 Definition it_static (it : Item) (r : list Item) : bool :=
   match it with
-  | Literal l => ascii_bb l
+  | Literal l => utf8_valid l
   | Space s => forallb ws_byte s && next_not_space r && (negb (may it_ws r) || next_padspace r)
   | INumeric spec pad =>
       match nfield_of spec with
@@ -403,33 +419,37 @@ Proof.
   split; [lia|]. split; [exact Hw|]. unfold is_whitespace, is_ascii_digit in *. lia.
 Qed.
 
-(* the first byte of the documented rendering of an item of the class *)
+Lemma ascii_valid0 l : ascii_b l -> utf8_valid l = true.
+Proof. intros H. rewrite <- (app_nil_r l). rewrite utf8_valid_app_ascii by exact H. reflexivity. Qed.
+
+(* the start of the documented rendering of an item of the class *)
 Lemma item_head sv it r t : sv_bounds sv -> it_static it r = true -> doc_render sv it = Some t ->
-  ascii_b t /\ head_ok (it_empty it) (it_digit it) (it_ws it) (it_dot it) t.
+  utf8_valid t = true /\ head_ok (it_empty it) (it_digit it) (it_ws it) (it_dot it) t.
 Proof.
   intros Bsv Hs Hd. destruct it as [l|l|spec pad|spec|]; cbn [it_static doc_render] in *.
-  - apply Some_inj in Hd. subst t. split; [exact (ascii_bb_sound l Hs)|].
-    destruct l as [|c l']; [reflexivity|]. cbn [ascii_bb forallb] in Hs. apply andb_prop in Hs. destruct Hs as [Hc _].
-    cbn [head_ok it_digit it_ws it_dot]. split; [lia|]. split; [auto|]. split; [auto|]. intros ->. reflexivity.
+  - apply Some_inj in Hd. subst t. split; [exact Hs|].
+    destruct l as [|c l']; [reflexivity|].
+    cbn [head_ok it_digit it_ws it_dot]. split; [auto|]. split; [auto|]. intros ->. reflexivity.
   - apply Some_inj in Hd. subst t. apply andb_prop in Hs. destruct Hs as [Hs _]. apply andb_prop in Hs. destruct Hs as [Hw _].
     split.
-    + pose proof (forallb_ws_byte l Hw) as H. unfold ascii_ws in H. clear - H.
+    + apply ascii_valid0. pose proof (forallb_ws_byte l Hw) as H. unfold ascii_ws in H. clear - H.
       induction H as [|c r [Hc _] _ IH]; constructor; assumption.
-    + destruct l as [|c l']; [reflexivity|]. cbn [forallb] in Hw. apply andb_prop in Hw. destruct Hw as [Hc _].
-      destruct (ws_byte_facts c Hc) as (A1 & A2 & A3 & A4). cbn [head_ok it_digit it_ws it_dot].
+    + apply head_ok_of_ascii.
+      destruct l as [|c l']; [reflexivity|]. cbn [forallb] in Hw. apply andb_prop in Hw. destruct Hw as [Hc _].
+      destruct (ws_byte_facts c Hc) as (A1 & A2 & A3 & A4). cbn [head_ok_ascii it_digit it_ws it_dot].
       split; [exact A1|]. split; [intros Hx; congruence|]. split; [auto|]. intros Hx. contradiction.
   - destruct (nfield_of spec) as [f|] eqn:Ef; [|discriminate Hd].
     destruct (render_num sv f (dpad_of pad)) as [s| |] eqn:Er; try discriminate Hd. apply Some_inj in Hd. subst s.
     unfold render_num in Er. destruct (negb (width_documented f (dpad_of pad))); [discriminate Er|].
     destruct (num_value sv f) as [x| |]; try discriminate Er. apply ROk_inj in Er. subst t.
-    split; [apply pad_num_ascii|].
+    split; [apply ascii_valid0; apply pad_num_ascii|]. apply head_ok_of_ascii.
     pose proof (pad_num_head (dpad_of pad) (num_width f)
                  (match f with NYear | NIsoYear => (x <? 0) || (9999 <? x) | _ => false end) x) as H.
     cbn [it_empty it_digit it_dot]. destruct pad; exact H.
   - destruct (tfield_of spec) as [f|] eqn:Ef; [|discriminate Hd].
     destruct (render_fix sv f) as [s| |] eqn:Er; try discriminate Hd. apply Some_inj in Hd. subst s.
     destruct (tfield_of_supported spec f Ef) as [Hsup _].
-    destruct (fix_facts sv f t Bsv Hsup Er) as [Ha Hh]. split; [exact Ha|].
+    destruct (fix_facts sv f t Bsv Hsup Er) as [Ha Hh]. split; [exact (ascii_valid0 t Ha)|]. apply head_ok_of_ascii.
     cbn [it_empty it_digit it_ws it_dot]. rewrite Ef. exact Hh.
   - discriminate Hd.
 Qed.
@@ -437,10 +457,48 @@ Qed.
 Lemma starts_ws_ascii c r : 0 <= c <= 127 -> starts_ws (c :: r) = is_whitespace c.
 Proof. intros H. unfold starts_ws. rewrite next_code_point_ascii by lia. reflexivity. Qed.
 
+(** the class with ASCII literals only (its definition before literals were generalised: the white-space
+    flag of a literal read off its first BYTE) is contained in the class: the generalisation only adds
+    members *)
+Definition it_ws_ascii (it : Item) : bool :=
+  match it with
+  | Literal (c :: _) => is_whitespace c
+  | Space (_ :: _) => true
+  | INumeric _ PadSpace => true
+  | _ => false
+  end.
+Definition it_static_ascii (it : Item) (r : list Item) : bool :=
+  match it with
+  | Literal l => ascii_bb l
+  | Space s => forallb ws_byte s && next_not_space r && (negb (may it_ws_ascii r) || next_padspace r)
+  | _ => it_static it r
+  end.
+Fixpoint static_ok2_ascii (items : list Item) : bool :=
+  match items with
+  | [] => true
+  | it :: r => it_static_ascii it r && static_ok2_ascii r
+  end.
+Lemma may_ws_ascii items : static_ok2_ascii items = true -> may it_ws items = may it_ws_ascii items.
+Proof.
+  induction items as [|it r IH]; [reflexivity|]. cbn [static_ok2_ascii may]. intros H.
+  apply andb_prop in H. destruct H as [Hit Hr]. rewrite (IH Hr). f_equal.
+  destruct it as [l| | | |]; try reflexivity. cbn [it_static_ascii] in Hit. destruct l as [|c l']; [reflexivity|].
+  cbn [it_ws it_ws_ascii]. cbn [ascii_bb forallb] in Hit. apply andb_prop in Hit. destruct Hit as [Hc _].
+  apply starts_ws_ascii. lia.
+Qed.
+Theorem static_class_grows items : static_ok2_ascii items = true -> static_ok2 items = true.
+Proof.
+  induction items as [|it r IH]; [reflexivity|]. cbn [static_ok2_ascii static_ok2]. intros H.
+  apply andb_prop in H. destruct H as [Hit Hr]. rewrite (IH Hr), andb_true_r.
+  destruct it as [l|s| | |]; cbn [it_static_ascii it_static] in *; try exact Hit.
+  - exact (ascii_valid0 l (ascii_bb_sound l Hit)).
+  - rewrite (may_ws_ascii r Hr). exact Hit.
+Qed.
+
 (* what the text of a list of the class can start with *)
 Lemma may_sound sv on : sv_bounds sv -> forall items texts, static_ok2 items = true ->
   Forall2 (doc_item sv on) items texts ->
-  ascii_b (concat texts) /\
+  utf8_valid (concat texts) = true /\
   (may it_digit items = false -> not_digit_start (concat texts) = true) /\
   (may it_ws items = false -> starts_ws (concat texts) = false) /\
   (may it_dot items = false -> starts_with_byte (concat texts) 46 = false).
@@ -450,19 +508,20 @@ Proof.
   - cbn [static_ok2] in Hs. apply andb_prop in Hs. destruct Hs as [Hit Hsr].
     destruct (IH ts Hsr Hr) as (A0 & A1 & A2 & A3).
     destruct (item_head sv it r t Bsv Hit Hd) as [Ha Hh].
-    cbn [concat may]. split; [apply ascii_app; assumption|].
+    cbn [concat may]. split; [apply utf8_valid_app2; assumption|].
     destruct t as [|c t'].
     + cbn [head_ok] in Hh. rewrite Hh. cbn [app andb].
       repeat split; intros Hm; apply orb_false_elim in Hm; destruct Hm as [_ Hm]; auto.
-    + cbn [head_ok] in Hh. destruct Hh as (Hc & Hdg & Hw & Hdt). cbn [app].
+    + cbn [head_ok] in Hh. destruct Hh as (Hdg & Hw & Hdt).
       repeat split; intros Hm; apply orb_false_elim in Hm; destruct Hm as [Hm _].
-      * cbn [not_digit_start]. destruct (is_ascii_digit c) eqn:E; [specialize (Hdg eq_refl); congruence|reflexivity].
-      * rewrite starts_ws_ascii by exact Hc. destruct (is_whitespace c) eqn:E; [specialize (Hw eq_refl); congruence|reflexivity].
-      * cbn [starts_with_byte]. destruct (Z.eqb_spec c 46) as [E|E]; [specialize (Hdt E); congruence|reflexivity].
+      * cbn [app not_digit_start]. destruct (is_ascii_digit c) eqn:E; [specialize (Hdg eq_refl); congruence|reflexivity].
+      * rewrite starts_ws_app by (try exact Ha; discriminate).
+        destruct (starts_ws (c :: t')) eqn:E; [specialize (Hw eq_refl); congruence|reflexivity].
+      * cbn [app starts_with_byte]. destruct (Z.eqb_spec c 46) as [E|E]; [specialize (Hdt E); congruence|reflexivity].
 Qed.
 
 Lemma ascii_valid l : ascii_b l -> utf8_valid l = true.
-Proof. intros H. rewrite <- (app_nil_r l). rewrite utf8_valid_app_ascii by exact H. reflexivity. Qed.
+Proof. exact (ascii_valid0 l). Qed.
 Lemma bytes_eqb_refl l : bytes_eqb l l = true.
 Proof. induction l as [|c r IH]; [reflexivity|]. cbn [bytes_eqb]. rewrite Z.eqb_refl, IH. reflexivity. Qed.
 
@@ -660,7 +719,7 @@ Qed.
 Lemma classic_space it : (exists s, it = Space s) \/ (forall s, it <> Space s).
 Proof. destruct it; try (right; intros s0 Hc; discriminate Hc). left. eexists. reflexivity. Qed.
 
-(* one item of the class other than white space, in front of a well-formed ASCII rest that starts as
+(* one item of the class other than white space, in front of a well-formed rest that starts as
    the look-ahead of the remaining items allows *)
 Lemma item_accept sv it r t rest : sv_bounds sv -> (forall o, sv_off sv = Some o -> o mod 60 = 0) ->
   (forall s, it <> Space s) -> it_static it r = true -> doc_render sv it = Some t -> utf8_valid rest = true ->
@@ -710,7 +769,7 @@ Proof.
     destruct (IH ts Hsr Hr) as (ws & Hws & HE).
     destruct (may_sound sv on Bsv r ts Hsr Hr) as (A0 & A1 & A2 & A3).
     pose proof (text_of_absorb (combine r ts)) as Eta. rewrite text_of_combine in Eta by (exact (F2_length _ _ _ Hr)).
-    pose proof (ascii_valid (concat ts) A0) as Hv.
+    pose proof A0 as Hv.
     assert (Hemp : empty_frac_pair sv (it, t)).
     { intros E1 E2. cbn [fst snd] in E1, E2. subst t. exact (doc_render_empty sv it r Bsv Hit Hd E2). }
     cbn [combine].
@@ -741,9 +800,11 @@ Proof.
             pose proof (A2 Hm') as Hsw. rewrite <- Eta in Hsw.
             assert (Hsp : split_ws t2' = ([], t2')).
             { apply split_ws_nows. destruct t2' as [|c t2r]; [exact I|].
-              cbn [static_ok2] in Hsr. apply andb_prop in Hsr. destruct Hsr as [Hit2 _].
-              destruct (item_head sv it2' r2 (c :: t2r) Bsv Hit2 Hd2) as [_ Hh]. cbn [head_ok] in Hh. destruct Hh as (Hc & _).
-              cbn [app] in Hsw. rewrite starts_ws_ascii in Hsw by exact Hc. unfold ws_byte. rewrite Hsw. apply andb_false_r. }
+              (* a first byte >= 128 is never taken by the padding scan; an ASCII one is its own code point *)
+              destruct (Z_le_gt_dec 0 c) as [Hc0|Hc0]; [destruct (Z_le_gt_dec c 127) as [Hc1|Hc1]|].
+              - cbn [app] in Hsw. rewrite starts_ws_ascii in Hsw by lia. unfold ws_byte. rewrite Hsw. apply andb_false_r.
+              - apply ws_byte_nonascii. lia.
+              - apply ws_byte_nonascii. lia. }
             rewrite Hsp in Esp. injection Esp as <- <-. rewrite app_nil_r. auto.
           - right. destruct it2' as [ | |spec pad| |]; try discriminate Hm. destruct pad; try discriminate Hm.
             exists spec. split; [reflexivity|].
